@@ -167,6 +167,28 @@ func (down *rtpDownTrack) setLayerInfo(info layerInfo) {
 	)
 }
 
+// updateWantedLayers stores the wantedSid, wantedTid and limitSid fields
+// of info.  It leaves alone the other fields, which belong to Write: Write
+// runs in a different goroutine than the callers of this function, and
+// storing our possibly stale copy of these fields would undo a layer
+// switch that Write has just performed.
+func (down *rtpDownTrack) updateWantedLayers(info layerInfo) {
+	const mask = 0xF<<4 | 1<<12 | 0xF<<20
+	var l uint32
+	if info.limitSid {
+		l = 1 << 12
+	}
+	v := uint32(info.wantedSid&0xF)<<4 | l | uint32(info.wantedTid&0xF)<<20
+	for {
+		old := atomic.LoadUint32(&down.atomics.layerInfo)
+		if atomic.CompareAndSwapUint32(
+			&down.atomics.layerInfo, old, old&^mask|v,
+		) {
+			return
+		}
+	}
+}
+
 const (
 	negotiationUnneeded = iota
 	negotiationNeeded
@@ -343,27 +365,27 @@ func (t *rtpDownTrack) adjustLayer() {
 		layer := t.getLayerInfo()
 		if layer.limitSid && layer.wantedSid != 0 {
 			layer.wantedSid = 0
-			t.setLayerInfo(layer)
+			t.updateWantedLayers(layer)
 		} else if !layer.limitSid && layer.sid < layer.maxSid {
 			layer.wantedSid = layer.sid + 1
-			t.setLayerInfo(layer)
+			t.updateWantedLayers(layer)
 		} else if layer.tid < layer.maxTid {
 			layer.wantedTid = layer.tid + 1
-			t.setLayerInfo(layer)
+			t.updateWantedLayers(layer)
 		}
 	} else if rate > max*3/2 {
 		// switch down
 		layer := t.getLayerInfo()
 		if layer.tid > 0 {
 			layer.wantedTid = layer.tid - 1
-			t.setLayerInfo(layer)
+			t.updateWantedLayers(layer)
 		} else if layer.sid > 0 {
 			if layer.limitSid {
 				layer.wantedSid = 0
 			} else {
 				layer.wantedSid = layer.sid - 1
 			}
-			t.setLayerInfo(layer)
+			t.updateWantedLayers(layer)
 		}
 	}
 }
